@@ -366,6 +366,35 @@ func TestC10Subset(t *testing.T) {
 		f := c.Font
 		n := f.NumGlyphs()
 		list := genList(t, n)
+		if co, ok := f.Outlines.(*cff.Outlines); ok && len(co.Private) > 1 && n > 2 && rapid.IntRange(0, 2).Draw(t, "allFDsPermuted") == 0 {
+			// a list that uses every font dictionary of the original, first
+			// used in a drawn order (not the order of the original's array)
+			byFD := map[int][]glyph.ID{}
+			for gid := 1; gid < n; gid++ {
+				fd := co.FDSelect(glyph.ID(gid))
+				byFD[fd] = append(byFD[fd], glyph.ID(gid))
+			}
+			fds := make([]int, 0, len(byFD))
+			for fd := range byFD {
+				fds = append(fds, fd)
+			}
+			sort.Ints(fds)
+			fds = rapid.Permutation(fds).Draw(t, "fdOrder")
+			head := []glyph.ID{0}
+			taken := map[glyph.ID]bool{0: true}
+			for _, fd := range fds {
+				g := rapid.SampledFrom(byFD[fd]).Draw(t, "fdGlyph")
+				head = append(head, g)
+				taken[g] = true
+			}
+			for _, g := range list {
+				if !taken[g] {
+					head = append(head, g)
+				}
+			}
+			list = head
+			c.Labels = append(c.Labels, "list:every-fd-in-drawn-order")
+		}
 		chained := false
 		if n >= 7 && rapid.IntRange(0, 3).Draw(t, "chainProfile") == 0 {
 			list = installChain(t, f, list)
